@@ -295,6 +295,21 @@ class SrcIter(object):
         self.exhausted_seen = False
 
 
+class LiveSeqIter(SrcIter):
+    """iterator over a list that other activations may extend while it is being iterated (Python list iterators are
+    live: each next() looks at the CURRENT length and contents)"""
+
+    def __init__(self, seq, name):
+        self.seq = seq
+        self.name, self.origin = name, seq.origin
+        self.pos = z3.IntVal(0)
+        self.exhausted_seen = False
+        self.elem_seq = seq
+
+    arr = property(lambda self: self.seq.arr, lambda self, v: None)
+    n = property(lambda self: self.seq.len, lambda self, v: None)
+
+
 class MapIter(object):
     """lazy generator expression / map over an iterator:  (elt for target in inner if conds)"""
 
